@@ -453,8 +453,8 @@ class BindStateBase:
 
         The expected event is defined by the State's sent_cmd, rcvd_msg methods.
         """
-        try:
-            await asyncio.wait_for(self._fut, timeout)
+        try:  # shield: wait_for() would cancel the future, which must take an exception
+            await asyncio.wait_for(asyncio.shield(self._fut), timeout)
         except TimeoutError:
             self._handle_wait_timer_expired(timeout)
         else:
@@ -464,6 +464,9 @@ class BindStateBase:
 
     def _handle_wait_timer_expired(self, timeout: float) -> None:
         """Process an overrun of the wait timer when waiting for a Message."""
+
+        if self._fut.done():  # the state already has its outcome (e.g. a 2nd timer)
+            return
 
         msg = (
             f"{self._context}: Failed to transition to {self._next_ctx_state}: "
@@ -567,8 +570,8 @@ class _DevIsWaitingForMsg(BindStateBase):
 
     def rcvd_msg(self, msg: Message) -> None:
         """If the msg is the waited-for pkt, transition to the next state."""
-        if self.is_phase(msg._pkt, self._expected_pkt_phase):
-            self._fut.set_result(msg)
+        if self.is_phase(msg._pkt, self._expected_pkt_phase) and not self._fut.done():
+            self._fut.set_result(msg)  # RF devices repeat their packets: 1st one counts
 
 
 class _DevIsReadyToSendCmd(BindStateBase):
@@ -614,7 +617,7 @@ class _DevIsReadyToSendCmd(BindStateBase):
 
     def rcvd_msg(self, msg: Message) -> None:
         """If the msg is the echo of the sent cmd, transition to the next state."""
-        if self._cmd and msg._pkt == self._cmd:
+        if self._cmd and msg._pkt == self._cmd and not self._fut.done():
             self._fut.set_result(msg)
 
 
@@ -629,8 +632,8 @@ class _DevSendCmdUntilReply(_DevIsWaitingForMsg, _DevIsReadyToSendCmd):
         """If the msg is the expected reply, transition to the next state."""
         # if self._cmd and msg._pkt == self._cmd:  # the echo
         #     self._set_context_state(self._next_ctx_state)
-        if self.is_phase(msg._pkt, self._expected_pkt_phase):
-            self._fut.set_result(msg)
+        if self.is_phase(msg._pkt, self._expected_pkt_phase) and not self._fut.done():
+            self._fut.set_result(msg)  # RF devices repeat their packets: 1st one counts
 
 
 class DevHasFailedBinding(BindStateBase):
